@@ -27,6 +27,12 @@ func BuildMapCodec(p CodecBuilder, registry CodecRegistry, typ reflect.Type, tag
 		return nil, fmt.Errorf("type must be a map to build a map codec")
 	}
 
+	if typ.Elem().Kind() == reflect.Map {
+		// Map codecs are handed the map itself when writing, but map values
+		// are only reachable via a pointer
+		return nil, fmt.Errorf("maps of maps are not supported")
+	}
+
 	keyCodec, err := p.CodecForTypeRegistry(registry, typ.Key(), "")
 	if err != nil {
 		return nil, fmt.Errorf("failed to find codec for map key %s. %w", typ.Key().Name(), err)
